@@ -349,7 +349,24 @@ def http_part(R, quick):
         sc = [b(s.url), b(root), not D["cfg"][0], True]
         acc = accessor.get_accessor_for_url(s.url + "/ds/")
         k, co = D["chunks"][0]
-        for beh in behs[:7]:
+        from neuroglancer_scripts.file_accessor import FileAccessor
+        local = FileAccessor(D["ds"])
+        for beh in behs[:7] + [("status-json", 503), ("status-json", 500), ("status-json", 404)]:
+            # files (info, ...): the failure is a data-access error, and the next fetch of the same path
+            # through the SAME accessor, the server healthy again, returns the file
+            for nm in ["info"] + D["extras"][:1]:
+                site.reset([beh])
+                o1 = h14.run_impl(lambda: acc.fetch_file(nm))
+                site.reset()
+                o2 = h14.run_impl(lambda: acc.fetch_file(nm))
+                cf = {"accessor": "http", "fetch_file": nm, "behaviour": str(beh), "then": "fetch again, server healthy"}
+                R.case(cf, nontrivial=True)
+                R.count(f"http:plain-file:{beh if isinstance(beh, str) else str(beh[0]) + str(beh[1])}:{o1[0]}:{o2[0]}")
+                if o1 != ["AccessErr"]:
+                    R.violation("HTTP failure while fetching a file not reported as a data-access error", cf, {"impl": o1})
+                if o2 != h14.run_impl(lambda: local.fetch_file(nm)):
+                    R.violation("after a failed fetch the same accessor keeps returning something else than the file "
+                                "(state of the failed reply survives)", cf, {"second_fetch": h12._short(o2)})
             site.reset([beh])
             out = h14.run_impl(lambda: acc.fetch_chunk(k, tuple(co)))
             case = {"accessor": "http", "fetch": [k, co], "behaviour": str(beh)}
